@@ -8,7 +8,8 @@
 //   pre <op...>                      sequential set-up operations (not scheduled, not traced)
 //   thread <tid> <op> ; <op> ; ...   the program of thread <tid> (0-based, consecutive)
 //   sched <tid> <tid> ...            choice at successive scheduling points (then round-robin);
-//                                    -(t+1) = thread t runs until it finishes or blocks
+//                                    -(t+1) = thread t runs until it finishes or blocks;
+//                                    -(100+t) = thread t runs until its next event is ALL_FIRST (about to take all locks)
 //   seed <n>                         or: seeded random scheduling
 // Thread ops: find k | contains k | insert k v | ioa k v | update k v | upsert k fn two v |
 //   uprase k fn two v | erase k | updatefn k fn | erasefn k fn | rehash n | reserve n | clear |
@@ -104,6 +105,7 @@ static thread_local int tls_tid = -1;
 static thread_local bool tls_in_hook = false;
 static std::unordered_map<const void *, int> g_lock_owner;
 static std::vector<int> g_sched;
+static int g_cur_kind = 0;       // hook kind at which the running thread is yielding
 static size_t g_sched_pos = 0;
 static bool g_random = false;
 static std::mt19937_64 g_rng;
@@ -163,8 +165,15 @@ static int choose_next(int me) {
     if (me_ok && (g_rng() % 100) < 70) return me;
     return cand[g_rng() % cand.size()];
   }
-  // a negative entry -(t+1) means: thread t runs until it has finished (or blocks); the entry is consumed then
-  while (g_sched_pos < g_sched.size() && g_sched[g_sched_pos] < 0) {
+  // a negative entry -(t+1) means: thread t runs until it has finished (or blocks); the entry is consumed then.
+  // -(100+t): thread t runs until it is about to start taking all locks (its next event is ALL_FIRST)
+  while (g_sched_pos < g_sched.size() && g_sched[g_sched_pos] <= -100) {
+    int t = -g_sched[g_sched_pos] - 100;
+    if (t < n && me == t && g_cur_kind == LIBCUCKOO_VH_ALL_FIRST) { ++g_sched_pos; continue; }
+    if (t < n && runnable(t)) return t;
+    ++g_sched_pos;
+  }
+  while (g_sched_pos < g_sched.size() && g_sched[g_sched_pos] < 0 && g_sched[g_sched_pos] > -100) {
     int t = -g_sched[g_sched_pos] - 1;
     if (t < n && runnable(t)) return t;
     ++g_sched_pos;
@@ -244,6 +253,7 @@ extern "C" void libcuckoo_verif_hook(int kind, const void *obj, unsigned long a,
     return;
   }
   if (++g_events > kMaxEvents) { g_out += "LIVELOCK\n"; fwrite(g_out.data(), 1, g_out.size(), stdout); fflush(stdout); _exit(4); }
+  g_cur_kind = kind;
   bool is_main_tab = (obj == (const void *)g_tab);
   bool is_main_buckets = (obj == (const void *)&IA::buckets(*g_tab));
   int ai, li;
